@@ -782,4 +782,15 @@ def ratelimitStep (proto : Proto) (q : Query) (known same allow : Bool) : RLOut 
     else if allow then .next else .drop
   | none => if allow then .next else .drop
 
+/-! ### the cached-failure byte route (`Cache.serveFailureFromWire`) -/
+
+/-- the synthesised SERVFAIL: a ZEROED header with one question, the client's
+question bytes, `wire.ApplyReply` (ID, QR, opcode, RD, CD), rcode SERVFAIL, RA;
+and the facts: AD not set, the "cached error" extended error. Nothing of the
+client's AD / TC / Z bits is carried over. -/
+def failureWire (q : Query) (ede : EOpt) : Msg × WireInfo :=
+  ({ id := q.id, opcode := q.opcode, rcode := rcodeServFail,
+     fl := { qr := true, rd := q.rd, cd := q.cd, ra := true }, question := some q.question },
+   { rcode := rcodeServFail, ad := false, hasDnssec := false, ede := some ede })
+
 end SdnsVerif.Model.Edns
